@@ -186,7 +186,8 @@ def step (icap : Nat) (srcs : List (List UInt8)) (p : SPool) (op : Op) (flag : B
     | some v =>
       if sfree p d then
         if v.length = 0 || n = 1 then (p.set d (some v), .unit)
-        else if v.length * n < U then (p.set d (some (List.replicate n v).flatten), .unit)
+        -- `[u8]::repeat` panics ("capacity overflow") beyond `isize::MAX` bytes
+        else if v.length * n < U / 2 then (p.set d (some (List.replicate n v).flatten), .unit)
         else (p, .panic)
       else (p, .badOp)
     | none => (p, .badOp)
